@@ -133,6 +133,26 @@ theorem C03_mono (k t : Nat) (m m' : Mask) (hm : m.size = 4 ^ k) (hm' : m'.size 
       · exact Trim.Mask.mem_indices.2 (hss' v (Trim.Mask.mem_indices.1 hv))
       · exact Trim.inducedAccessor_ent_mono hss' v j hv hj hent
 
+/-- `ReachesBranching` and `Closed1` are the `RB` and `ClosedOne` of `Lemmas/TrimOne.lean`. -/
+theorem C03_reaches_iff (k : Nat) (s : Mask) (v : Nat) :
+    ReachesBranching k s v ↔ TrimOne.RB k s v := by
+  constructor
+  · intro h
+    induction h with
+    | here v h1 h2 => exact TrimOne.RB.here v h1 h2
+    | step v w h1 h2 h3 _ ih => exact TrimOne.RB.step v w h1 h2 h3 ih
+  · intro h
+    induction h with
+    | here v h1 h2 => exact ReachesBranching.here v h1 h2
+    | step v w h1 h2 h3 _ ih => exact ReachesBranching.step v w h1 h2 h3 ih
+
+theorem C03_closed1_iff (k : Nat) (s : Mask) : Closed1 k s ↔ TrimOne.ClosedOne k s := by
+  constructor
+  · intro h v hv
+    exact ⟨(h v hv).1, (C03_reaches_iff k s v).1 (h v hv).2⟩
+  · intro h v hv
+    exact ⟨(h v hv).1, (C03_reaches_iff k s v).2 (h v hv).2⟩
+
 /-- threshold 1: after the trimming loop the code repeatedly removes every vertex that cannot
 reach a vertex with two or more arcs (backward closure from the branching vertices) and cascades
 the removal to predecessors left without arcs; the result is the largest `Closed1` sub-graph, or
@@ -143,11 +163,42 @@ theorem C03_t1 (k : Nat) (m : Mask) (hm : m.size = 4 ^ k) (hk : 1 ≤ k) :
           vs = obtainVertices a ∧ vs ≠ []) ∧
     (∀ e, connectCodingGraph k m 1 = .error e →
         e = .valueError ∧ ∀ s : Mask, s.size = 4 ^ k → s.Sub m → ClosedFor k 1 s → s.indices = []) := by
-  sorry
+  have hCF : ∀ s : Mask, ClosedFor k 1 s ↔ TrimOne.ClosedOne k s := by
+    intro s; simp only [ClosedFor, if_true]; exact C03_closed1_iff k s
+  have hfuel : m.count < 4 ^ k + 1 := by
+    have := Trim.Mask.count_le_size m; omega
+  rw [TrimOne.connectCodingGraph_one]
+  cases hl : trimLoop k 1 (4 ^ k + 1) m with
+  | error e' =>
+    refine ⟨fun vs a h => (by cases h), fun e h => ?_⟩
+    cases h
+    obtain ⟨h1, h2⟩ := Trim.trimLoop_error k 1 _ m e' hm hfuel hl
+    refine ⟨h1, fun s _ hsub hc => ?_⟩
+    apply List.eq_nil_iff_forall_not_mem.2
+    intro v hv
+    exact h2 s hsub ((hCF s).1 hc).trimClosed v (Trim.Mask.mem_indices.1 hv)
+  | ok s0 =>
+    obtain ⟨h1, h2, h3, h4, _⟩ := Trim.trimLoop_ok k 1 _ m s0 hm hl
+    obtain ⟨m1, m2⟩ := TrimOne.thresholdOne_main hk h3
+    refine ⟨fun vs a h => ?_, fun e h => ?_⟩
+    · obtain ⟨s, g1, g2, g3, g4, g5, g6, g7, g8⟩ := m1 vs a h
+      refine ⟨s, ⟨g1, Trim.Mask.Le.trans g2 h2, (hCF s).2 g3, fun s' hs' hsub hc' => ?_⟩,
+        g5, g6, g7, g8⟩
+      have hc := (hCF s').1 hc'
+      exact g4 s' hs' (h4 s' hsub hc.trimClosed) hc
+    · obtain ⟨g1, g2⟩ := m2 e h
+      refine ⟨g1, fun s hs hsub hc' => ?_⟩
+      have hc := (hCF s).1 hc'
+      apply List.eq_nil_iff_forall_not_mem.2
+      intro v hv
+      exact g2 s hs (h4 s hsub hc.trimClosed) hc v (Trim.Mask.mem_indices.1 hv)
 
 /-- the full statement, every threshold 1…4. -/
 theorem C03_holds : C03_statement := by
-  sorry
+  intro k t m hm hk ht _
+  by_cases h1 : t = 1
+  · subst h1; exact C03_t1 k m hm hk
+  · exact C03_gfp k t m hm hk (by omega)
 
 /-- trimming a latter map to the same threshold gives the same graph for t ≥ 2. -/
 theorem C03_latter_map (k t : Nat) (m : Mask) (hm : m.size = 4 ^ k) (hk : 1 ≤ k) (ht : 2 ≤ t)
